@@ -160,3 +160,62 @@ def verdict(cid, r, known_matchers=()):
                                "among %d cases)\n%s\n" % (", ".join(cf), len(r["corr_fail"]), r["evaluations"], case["_line"]))
         violations.append(("correspondence broken (%s) on %d cases" % (", ".join(cf)[:200], len(r["corr_fail"])), rp, True))
     return violations, known
+
+
+def run_simple(cid, ctx, chan, harness_args, oracle_aspects, corr_aspects, nontrivial=None, seed_offset=0,
+               name=None, timeout=3000, env_extra=None, known_matchers=()):
+    """Generic evaluation for channels whose driver output is a list of aspect=ok|FAIL(..)
+    pairs.  Returns the same structure as run_art."""
+    import collections
+    tier, seed = ctx["tier"], ctx["seed"]
+    path = os.path.join(vlib.RUNS, "%s_%s_%s.cases" % (cid, name or chan, tier))
+    vlib.run_harness([chan, "--seed", str(seed + seed_offset)] + harness_args, path, timeout=timeout, env_extra=env_extra)
+    order, cases, impl = vlib.read_cases(path)
+    results, _ = vlib.run_driver(path, timeout=timeout)
+    rmap = {r.get("id"): r for r in results}
+    evaluations, keys, samples = 0, set(), []
+    oracle_fail, corr_fail = [], []
+    dist = collections.Counter()
+    for cidx in order:
+        case = cases[cidx]
+        res = rmap.get(cidx, {"error": "no-driver-output"})
+        evaluations += 1
+        dist["chan=" + case["_chan"]] += 1
+        k = nontrivial(case) if nontrivial else case["_line"].split(" id=")[-1].split(" ", 1)[-1]
+        if k is not None:
+            keys.add(k)
+        if len(samples) < 3:
+            samples.append({"id": cidx, "case": case["_line"][:300], "model": {k2: v for k2, v in res.items() if not k2.startswith("_")}})
+        of, cf = [], []
+        if "error" in res:
+            cf.append("driver-error(%s)" % res["error"])
+        for a, v in res.items():
+            if a.startswith("_") or a == "id" or v == "ok" or a == "error":
+                continue
+            if a in oracle_aspects and v.startswith("FAIL"):
+                of.append("%s:%s" % (a, v))
+            elif a in corr_aspects and v.startswith("FAIL"):
+                cf.append("%s:%s" % (a, v))
+        if of:
+            oracle_fail.append((cidx, case, of, path))
+        if cf:
+            corr_fail.append((cidx, case, cf, path))
+    return {"evaluations": evaluations, "distinct_nontrivial": len(keys), "distribution": dict(dist),
+            "samples": samples, "oracle_fail": oracle_fail, "corr_fail": corr_fail, "refused": 0, "rule": ""}
+
+
+def merge(rs):
+    out = {"evaluations": 0, "distinct_nontrivial": 0, "distribution": {}, "samples": [], "oracle_fail": [],
+           "corr_fail": [], "refused": 0, "rule": ""}
+    for r in rs:
+        out["evaluations"] += r["evaluations"]
+        out["distinct_nontrivial"] += r["distinct_nontrivial"]
+        for k, v in r["distribution"].items():
+            out["distribution"][k] = out["distribution"].get(k, 0) + v
+        out["samples"] += r["samples"][:2]
+        out["oracle_fail"] += r["oracle_fail"]
+        out["corr_fail"] += r["corr_fail"]
+        out["refused"] += r.get("refused", 0)
+        if r.get("rule"):
+            out["rule"] = (out["rule"] + " | " + r["rule"]).strip(" |")
+    return out
